@@ -79,7 +79,10 @@ class ApiGen:
         self.deps = None
         self.hist = {}
         self.strsize = self.L.consts['STR_SIZE']
-        self._rule = {}
+        # rule indices and near-common word sets are expensive: shared by all sessions of a check
+        if not hasattr(ctx, '_apicache'):
+            ctx._apicache = {}
+        self._rule = ctx._apicache
 
     def accepted_for(self, li, tok):
         """indices the matcher's (proven) rule accepts the NFKD token for"""
@@ -523,7 +526,7 @@ class ApiGen:
             out = []
             for i, w in enumerate(self.L.words(a)):
                 t = asc(w)
-                if t in full or (len(t) >= 4 and (t in pre or t[:4] in {v[:4] for v in wb})):
+                if t in full or (len(t) >= 4 and t in pre):
                     out.append(i)
             self._rule[key] = out
         return self._rule[key]
@@ -550,7 +553,11 @@ class ApiGen:
                 return
             even = [i for i in pool if ((i ^ coin) % 2 == 0)] or pool
             evn = [i for i in pool if i % 2 == 0] or pool
-            pick = lambda pos: r.choice(even if pos == 1 else evn if pos <= 5 else pool)
+            # at least one word that the other list recognises ONLY when non-ASCII bytes are ignored
+            wl = self.L.words(li)
+            marked = [i for i in pool if any(c >= 128 for c in wl[i])] or pool
+            where = r.randrange(6, 16)
+            pick = lambda pos: r.choice(even if pos == 1 else evn if pos <= 5 else marked if pos == where else pool)
             ps = set(pool)
             chk_ok = lambda c: c in ps
         elif kind == 'accent-edge':
@@ -1045,6 +1052,16 @@ class ApiGen:
             self.report('C09', 'mult-lang', 'phrase whose 16 tokens are recognised by languages %d and %d returned %s, expected the multiple-languages status' % (a, b, o.kv('st')))
         if k2 is not None:
             self.free(k2)
+        # the same with lang_out = NULL (it is optional)
+        kn = self.free_slot()
+        on = self.op('decoden %d %d %s' % (kn, coin, hx(s)))
+        if on is not None and on.head != 'skip':
+            if on.kv('st') != '7':
+                self.report('C09', 'mult-lang', 'phrase whose 16 tokens are recognised by languages %d and %d returned %s with lang_out = NULL, expected the multiple-languages status' % (a, b, on.kv('st')))
+            if on.kv('st') == '0':
+                self.slots[kn] = dict(b=0, f=0, secret=bytes(32), chk=0, block=on.kv('seed'))
+                self.dump(kn)
+                self.free(kn)
         for lang in (a, b):
             o, k2 = self.decode(coin, s, lang)
             if o is not None and o.kv('st') not in ('0', '3', '4'):
@@ -1114,6 +1131,16 @@ class ApiGen:
             if k is not None:
                 self.op('birthday %d' % k)
                 self.free(k)
+        # the same through the libc fall-back (time entry NULL): the harness serves libc `time` from the same script; the
+        # process runs in a time zone that is not UTC, which must not matter
+        self.inject([11, 12, 13, 14, 15, 0, 17, 18])
+        for t in [EPOCH + r.randrange(1, 1024) * STEP - 1, EPOCH + r.randrange(1, 1024) * STEP, EPOCH + r.randrange(1, 1024) * STEP + 1,
+                  EPOCH + r.randrange(1024 * STEP), EPOCH + STEP - 1, EPOCH + 1024 * STEP - 1, 2 ** 32 - 1]:
+            k = self.create(feat=0, t=t)
+            if k is not None:
+                self.op('birthday %d' % k)
+                self.free(k)
+        self.inject()
 
     # ------------------------------------------------------------ driver
     def run(self, nops, weights):
